@@ -54,6 +54,7 @@ class Faults:
         self.log = []
         self.open_files = []
         self.orig = {}
+        self.dead = False
 
     def watched(self, path):
         try:
@@ -62,12 +63,15 @@ class Faults:
             return False
 
     def op(self, name):
+        if self.dead:
+            raise Crash('dead')    # a crashed process does nothing any more (no clean-up in finally clauses either)
         i = self.count
         self.count += 1
         self.log.append(name)
         if self.fault_at is not None and i == self.fault_at:
             self.fault_at = None    # one fault per run
             if self.kind == 'crash':
+                self.dead = True
                 raise Crash(name)
             raise OSError(28, f'injected failure at {name}')
 
@@ -304,6 +308,13 @@ def _check_module(ctx, case, workdir):
         else:
             ctx.ok('reload-roundtrip')
     m2 = new_module(cls, spec, workdir, spec.get('cfg'))
+    # the snapshot on disk is brought up to date at start-up (configured values win over stored ones there too: a later
+    # loadParameters() must not bring the outdated ones back)
+    disk = read_file(workdir)
+    if disk != ('ok', exported(m2, spec)):
+        ctx.finding('reload:file-not-updated-at-start', case, f'{disk!r} vs {exported(m2, spec)!r}'[:400])
+    else:
+        ctx.ok('file-updated-at-start')
     for p in spec['params']:
         ctx.ev()
         got = rm.canon(getattr(m2, p['name']))
@@ -382,10 +393,33 @@ def _check_module(ctx, case, workdir):
                     ctx.ok('crash-atomic')
                 # and start-up from that state works
                 try:
-                    new_module(cls, spec, workdir, None)
+                    m5 = new_module(cls, spec, workdir, None)
+                    m5.writeInitParams()       # (saves are deferred while start-up writes are pending - documented)
                     ctx.ok('startup-after-crash')
                 except Exception as e:   # noqa
                     ctx.finding(f'crash:startup-fails:{type(e).__name__}', sub, repr(e)[:200])
+                    continue
+                # the next life saves again (leftovers of the crashed save - a temporary file - must not harm): complete snapshots,
+                # also when the values get shorter
+                for short in (False, True):
+                    if short:
+                        for p in spec['params']:
+                            try:
+                                setattr(m5, p['name'], p['default'])
+                            except Exception:   # noqa
+                                pass
+                    try:
+                        m5.saveParameters()
+                    except Exception as e:   # noqa
+                        ctx.finding(f'crash:save-in-next-life-fails:{type(e).__name__}', sub, repr(e)[:200])
+                        break
+                    disk2 = read_file(workdir)
+                    if disk2 != ('ok', exported(m5, spec)):
+                        ctx.finding(f'crash:file-wrong-in-next-life:{opname}', sub,
+                                    f'after a crash at op {idx} ({opname}), restart and save: {disk2!r} vs {exported(m5, spec)!r}'[:500])
+                        break
+                else:
+                    ctx.ok('next-life-saves-complete-snapshots')
             else:
                 if mm is None:
                     continue
